@@ -365,9 +365,14 @@ def main(argv=None):
                 results = pool.map(run_shard, jobs)
         stats = merge(results)
         extra = None
+        finalize_error = None
         if hasattr(prop, "finalize"):
             core.setup_imports()
-            extra = prop.finalize(ns.tier, seed, stats)   # may append to stats.violations / return extra coverage
+            try:
+                extra = prop.finalize(ns.tier, seed, stats)   # may append to stats.violations / return extra coverage
+            except Exception as e:  # noqa  - a broken second engine must not hide what the first one found
+                finalize_error = f"{type(e).__name__}: {str(e)[:300]}"
+                extra = {"second_engine_error": finalize_error}
         # ---- report ------------------------------------------------------------------------------------------
         os.makedirs(os.path.join(core.OUT_DIR, "replays"), exist_ok=True)
         seen = set()
@@ -395,6 +400,9 @@ def main(argv=None):
               f"timeouts={stats.timeouts} wall={wall:.1f}s")
         if nviol:
             return 1
+        if finalize_error:
+            print(f"HARNESS-ERROR: second engine failed: {finalize_error}")
+            return 2
         if stats.evaluations == 0:
             print("HARNESS-ERROR: no case was evaluated (machine overloaded or generator broken)")
             return 2
